@@ -1,22 +1,38 @@
 _C13_COMMON = ["storagex/model_test.go", "storagex/c13_kv_test.go"]
+_C13_LAYERS = ["", "+cache", "+encoding", "+physview", "+logical+storageview", "+barrier", "+barrier+barrierview",
+               "+cache+encoding+barrier+barrierview"]
+
+
+def _c13_floors(bases, extra=()):
+    # one fifth of the non-trivial rate measured on the unchanged tree (0.45-0.7 per stack)
+    names = [b + l for b in bases for l in _C13_LAYERS] + list(extra)
+    return {"kv-" + n: {"nontrivial": 0.10} for n in names}
+
+
 CHECK = {
     "level": "exploration",
     "assumptions": [
-        "the sorted-map reference model in harness/storagex/model_test.go is the contract (immediate children, trailing '/' for sub-prefixes, sorted, ListPage = filtered slice)",
-        "file backend: names it cannot store (segments starting with '_', '.', NUL, >254 bytes, '.temp' suffix) are not generated",
+        "the sorted-map reference model in harness/storagex/model_test.go is the contract (immediate children, trailing '/' for sub-prefixes, sorted, no duplicates; ListPage = entries > after, cut at limit when limit > 0)",
+        "file backend: names it cannot store are not generated (segments starting with '_', '.' segments, NUL, segments over 249 bytes, trailing-slash keys)",
+        "live raft backend: keys are valid UTF-8 (they travel as protobuf strings; the encoding layer above raft enforces this in production)",
+        "scan helpers: page size / limit 1 is not combined with trailing-slash keys (ListPage(dir, \"\", 1) = [\"\"] repeats for ever; the helper documents that it needs a larger page then)",
     ],
     "units": [
         unit("storagex-mem", "storagex", _C13_COMMON, "^TestVerif_C13_Mem$",
-             quick={"checks": 2500, "shards": 1, "cap": 600},
-             thorough={"checks": 6000, "shards": 16, "cap": 2400}, no_ulimit=True),
+             quick={"checks": 1500, "shards": 1, "cap": 600},
+             thorough={"checks": 6000, "shards": 16, "cap": 2400}, no_ulimit=True,
+             floors=_c13_floors(["inmem", "inmem-notx"], ["inmemstorage", "inmem+cache+physview", "inmem+barrier+storageview"])),
         unit("storagex-file", "storagex", _C13_COMMON, "^TestVerif_C13_File$",
-             quick={"checks": 400, "shards": 1, "cap": 600},
-             thorough={"checks": 2000, "shards": 16, "cap": 2400}, no_ulimit=True),
+             quick={"checks": 300, "shards": 1, "cap": 600},
+             thorough={"checks": 1500, "shards": 16, "cap": 2400}, no_ulimit=True,
+             floors=_c13_floors(["file"])),
         unit("storagex-fsm", "storagex", _C13_COMMON, "^TestVerif_C13_FSM$",
-             quick={"checks": 250, "shards": 1, "cap": 600, "shrinktime": "15s"},
-             thorough={"checks": 1200, "shards": 16, "cap": 2400, "shrinktime": "15s"}, no_ulimit=True),
+             quick={"checks": 200, "shards": 1, "cap": 600, "shrinktime": "15s"},
+             thorough={"checks": 1000, "shards": 16, "cap": 2400, "shrinktime": "15s"}, no_ulimit=True,
+             floors=_c13_floors(["fsm"])),
         unit("raft-listing", "raft", ["raft/c13_raft_test.go"], "^TestVerif_C13_RaftListing$",
-             quick={"checks": 600, "shards": 1, "cap": 600, "shrinktime": "15s"},
-             thorough={"checks": 2500, "shards": 16, "cap": 2400, "shrinktime": "15s"}, no_ulimit=True),
+             quick={"checks": 400, "shards": 1, "cap": 600, "shrinktime": "15s"},
+             thorough={"checks": 2000, "shards": 16, "cap": 2400, "shrinktime": "15s"}, no_ulimit=True,
+             floors={"raft-listing": {"nontrivial": 0.07}}),
     ],
 }
